@@ -25,6 +25,13 @@ class StepLimit(Exception):
     pass
 
 
+import time  # noqa: E402
+
+SLOW_S = 0.2  # CPU seconds (plus 0.2 ms per input byte) one parse may take before it is reported as slow
+PY_GUARD_S = 3.0  # CPU seconds after which a Python-level loop is interrupted
+SLOW_LIMIT = 40  # after that many slow/hung parses (whole run, all workers) parsing stops
+
+
 class CpuLimit(Exception):
     """The code under test consumed more CPU time than any terminating run
     plausibly needs (process CPU time, so machine load does not matter)."""
@@ -39,7 +46,7 @@ def _on_vtalrm(signum, frame):
 
 
 @contextlib.contextmanager
-def cpu_guard(seconds=8.0):
+def cpu_guard(seconds=3.0):
     """Raise CpuLimit inside the block after `seconds` of process CPU time.
     A hang of the code under test becomes a finite observation instead of a
     check that never returns."""
@@ -104,6 +111,18 @@ def parse_outcome(src, parser=None, step_factor=2, step_const=16):
     finite observation (exc == 'StepLimit')."""
     p = parser if parser is not None else Parser()
     n = len(src.encode("utf-8", "surrogatepass")) if isinstance(src, str) else len(src)
+    from . import core as _core
+    if _core.slow_count() >= SLOW_LIMIT:
+        # this process has already seen SLOW_LIMIT parses that burnt CPU for
+        # seconds: the finding is established, do not crawl through the rest
+        o = Outcome()
+        o.parser = p
+        o.verdict = None
+        o.exc = "Skipped"
+        o.exc_msg = "not parsed: %d earlier parses in this run were CPU-slow or hung" % _core.slow_count()
+        o.error = o.error_pos = o.result = None
+        o.steps = -1
+        return o
     limit = step_factor * n + step_const
     inst = _install_counter(p, limit)
     o = Outcome()
@@ -113,10 +132,10 @@ def parse_outcome(src, parser=None, step_factor=2, step_const=16):
     o.error = None
     o.error_pos = None
     o.result = None
-    from . import core as _core
     _core.guard_enter(src)
+    t_cpu = time.process_time()
     try:
-        with cpu_guard():
+        with cpu_guard(PY_GUARD_S):
             o.verdict = p.parse(src)
     except StepLimit:
         o.verdict = None
@@ -136,6 +155,16 @@ def parse_outcome(src, parser=None, step_factor=2, step_const=16):
         _core.guard_exit()
         if inst:
             inst[0].scan = inst[1]
+    dt = time.process_time() - t_cpu
+    if o.exc in ("CpuLimit", "StepLimit"):
+        _core.slow_incr()
+    elif dt > SLOW_S + 2e-4 * n:
+        # CPU time (not wall time) of one parse: thousands of times what a
+        # terminating linear-time parse of this size needs
+        o.exc = "CpuSlow"
+        o.exc_msg = "%.1f s of CPU for %d bytes" % (dt, n)
+        o.verdict = None
+        _core.slow_incr()
     o.steps = inst[2][0] if inst else -1
     if o.verdict is False:
         o.error = getattr(p, "error", None)
